@@ -54,7 +54,12 @@ RULE = ('bases: generated reference (taxonomy depth 1-6 with chains and '
         'are prefixes / suffixes / extensions of level names; per base drop and '
         'absent pairs with min_markers 2-5 and parents at / below the dropped '
         'level listing fewer usable genes (a gene palette per level); drop and '
-        'absent pairs also compare the traced gene list of every node.  non-trivial = the run tree of the pair (reduced / '
+        'absent pairs also compare the traced gene list of every node; per base '
+        'one config-reuse history: ONE config dict object (drop_level = a '
+        'non-leaf level) handed to 2-3 run_mapping calls that alternate between '
+        'the reference without / with that level (files re-written in place), '
+        'sometimes toggling flatten, each call compared with a fresh dict on '
+        'fresh files; every run: the config dict is unchanged afterwards.  non-trivial = the run tree of the pair (reduced / '
         'one-level / stored) has a parent with >= 2 children, i.e. a vote is '
         'taken; distinct by canonical JSON of (kind, level, problem, config)')
 TRUSTED = ['anndata/h5py write and read back the query and the stats file as '
@@ -536,6 +541,8 @@ def check_pair(ctx, problem, cfg, kind, level=None, label='random',
                            tmp_dir=tmp)
         rb = U.run_problem(problem, cfg_b, tree=tree_b, markers=markers_b,
                            want_trace=not flat, workdir=wd, tmp_dir=tmp)
+    U.mutation_violation(ctx, 'C17', ra, dict(detail, run='A'))
+    U.mutation_violation(ctx, 'C17', rb, dict(detail, run='B'))
     if not ra['ok'] and not rb['ok']:
         # nothing to compare; that a valid problem is mapped at all is C01
         ctx.count('pair:both-fail:%s' % c01.error_class(ra['error']))
@@ -594,6 +601,65 @@ def check_pair(ctx, problem, cfg, kind, level=None, label='random',
     return fail is None
 
 
+def check_reuse(ctx, problem, cfg, level, order, flatten_toggle=False):
+    """ONE config dict object handed to run_mapping several times (a script
+    looping over references): `order` lists which reference each call maps
+    against -- 'without' (the taxonomy that never had `level`) or 'with' (the
+    stored taxonomy that has it) -- always with drop_level = level; optionally
+    the caller toggles `flatten` in his dict between calls.  Every call must
+    give exactly what a fresh dict with the same settings gives on freshly
+    written files."""
+    from ctmverif import pipeline
+    tree = problem['tree']
+    gone = {U.marker_key((level, n)) for n in tree[level]}
+    p_without = dict(problem, tree=U.reduced_tree(tree, drop=level),
+                     markers={k: list(v) for k, v in problem['markers'].items()
+                              if k not in gone})
+    detail = {'kind': 'reuse', 'problem': problem, 'config': cfg,
+              'level': level, 'order': order, 'flatten_toggle': flatten_toggle}
+    ctx.case(json.dumps(detail, sort_keys=True) if U.has_choice(tree) else None,
+             sample={'kind': 'reuse', 'level': level, 'order': order,
+                     'hierarchy': tree['hierarchy']})
+    ctx.count('reuse:%s' % '>'.join(order))
+    holder = {}
+    ok = True
+    with pipeline.workdir('ctmverif_ll_reuse_') as d:
+        for i, which in enumerate(order):
+            pr = problem if which == 'with' else p_without
+            c = dict(cfg, drop_level=level)
+            edits = {}
+            if flatten_toggle:
+                c['flatten'] = bool(i % 2)
+                edits['flatten'] = c['flatten']
+            got = U.run_problem(pr, c, want_trace=False, workdir=d,
+                                reuse=holder, edits=edits)
+            want = U.run_problem(pr, c, want_trace=False)
+            U.mutation_violation(ctx, 'C17', got, dict(detail, call=i))
+            if got['ok'] != want['ok'] or got['results'] != want['results']:
+                if got['ok'] and want['ok']:
+                    bad = [(a['cell_id'], l) for a, b in
+                           zip(got['results'], want['results'])
+                           for l in a if a.get(l) != b.get(l)]
+                    flags = [a['cell_id'] for a in got['results']
+                             if isinstance(a.get(level), dict) and
+                             a[level].get('directly_assigned')]
+                    msg = ('%d (cell, level) results differ, e.g. %r; level '
+                           '%r directly assigned for %d cells'
+                           % (len(bad), bad[:3], level, len(flags)))
+                else:
+                    msg = 'reused dict: %s / fresh dict: %s' % (
+                        got['error'] or 'ok', want['error'] or 'ok')
+                ctx.violation(
+                    'C17/reuse/%s/differs-from-fresh-config' % which,
+                    'call %d with the SAME config dict object (drop_level=%r, '
+                    'reference %s the level): %s' % (i, level, which, msg),
+                    dict(detail, call=i))
+                ok = False
+            if not ok:
+                break
+    return ok
+
+
 def with_lookup(rng, problem, cfg, kind, level, prob=0.4):
     """the `bootstrap_factor_lookup` option for both runs of a pair: complete
     for the tree of the run only (no entry for the dropped level; only 'None'
@@ -641,6 +707,13 @@ def check_base(ctx, problem, cfg, mode='replay', all_levels=True):
                                                    rng.choice(h[:-1]), m))
         check_pair(ctx, pd, dict(cfg, min_markers=m), 'absent',
                    absent_level(rng, h))
+    # the same config dict object re-used across calls
+    if len(h) >= 2:
+        lv = rng.choice(h[:-1])
+        order = rng.choice([['without', 'with'], ['without', 'with', 'without'],
+                            ['with', 'without', 'with']])
+        check_reuse(ctx, problem, cfg, lv, order,
+                    flatten_toggle=rng.random() < 0.25)
     # flatten TOGETHER with drop_level: the dropped level's parents own genes
     # nobody else lists; crossed with no runners-up / a single iteration
     levels = list(h[:-1])
@@ -676,6 +749,9 @@ def replay(ctx, data, from_corpus=False):
     if kind in ('drop', 'flatten', 'absent', 'flatten_drop'):
         check_pair(ctx, d['problem'], d['config'], kind, d.get('level'),
                    label='replay', share=d.get('share'))
+    elif kind == 'reuse':
+        check_reuse(ctx, d['problem'], d['config'], d['level'], d['order'],
+                    d.get('flatten_toggle', False))
     elif kind == 'base':
         check_base(ctx, d['problem'], d['config'])
     elif not from_corpus:
